@@ -215,6 +215,24 @@ func runAG(c *Ctx) (obls []Obl) {
 						okFirst = true
 					}
 				}
+				// if member.First { first = true }
+				if mf, have := p.lit(firstStr); have && mf {
+					if v, isC := fs.Val.boolConst(); isC && v {
+						okFirst = true
+					}
+				}
+			}
+			// ... and nothing stored when the member is not the first goroutine: the flag keeps its value
+			if !okFirst {
+				stored := false
+				for _, fs := range firstStores {
+					if fs.Addr.String() == "&"+cVal+".first" {
+						stored = true
+					}
+				}
+				if mf, have := p.lit(firstStr); !stored && have && !mf {
+					okFirst = true
+				}
 			}
 			if okFirst {
 				a.ok("AG-first", "Aggregate/match-first", "the bucket's first flag is OR-ed with the member's", pos)
